@@ -556,6 +556,20 @@ def cases(rng, tier, shard, nshards):
             for pat in ([a], svc + ":" + name[:3] + "*", [svc + ":" + name[: max(1, len(name) // 2)] + "*", "sts:AssumeRole"]):
                 yield TWICE, {"template": {"Resources": {"P": {"Type": "AWS::IAM::ManagedPolicy", "Properties": {"PolicyDocument": {
                     "Version": "2012-10-17", "Statement": [{"Effect": "Allow", "Action": pat, "Resource": "*"}]}}}}}, "resolve": False}
+    # one template, several Action elements whose TEXTS coincide when glued together: ["a,b"] (one pattern that contains the separator
+    # and matches nothing) next to ["a", "b"]; every element is expanded on its own (seeded change C09-r7Km1 shared one memo per
+    # expand_actions() call, keyed by the comma-joined text)
+    for sep in ([",", " ", "|", ";", "\n", ", "] if shard == 0 else []):
+        a, b = rng.choice([("s3:GetObject", "s3:PutObject"), ("iam:PassRole", "sts:AssumeRole"), ("ec2:Run*", "ec2:Start*")])
+        def pol(act):
+            return {"Type": "AWS::IAM::ManagedPolicy", "Properties": {"PolicyDocument": {"Version": "2012-10-17", "Statement": [
+                {"Effect": "Allow", "Action": act, "Resource": "*"}]}}}
+        twins = [[a + sep + b], [a, b], a + sep + b, [a, b, a + sep + b]]
+        rng.shuffle(twins)
+        t = {"Resources": {f"P{i}": pol(act) for i, act in enumerate(twins)}}
+        t["Resources"]["G"] = {"Type": "Custom::G", "Properties": {"Action": [a + sep + b], "Nested": {"Action": [a, b]}}}
+        yield MODEL, {"template": t, "resolve": False}
+        yield TWICE, {"template": t, "resolve": False}
     n = {"quick": 200, "thorough": 1100}[tier]
     for _ in range(6):
         yield RESULT_EDITED, {"template": gen_template(rng, cat, small=True), "resolve": rng.random() < 0.5}
